@@ -293,6 +293,13 @@ class Models(object):
             return o[lo:hi]
         if isinstance(o, (str, SV)):
             s = E.need_str(o)
+            # concat-aware shortcuts: cutting inside a literal end piece
+            ps = self.pieces(s)
+            if (lo is None or lo == 0) and isinstance(hi, int) and hi < 0 and ps and isinstance(ps[-1], str) \
+                    and len(ps[-1]) >= -hi:
+                return sym.mk_str(self.join_pieces(ps[:-1] + [ps[-1][:hi]]))
+            if hi is None and isinstance(lo, int) and lo >= 0 and ps and isinstance(ps[0], str) and len(ps[0]) >= lo:
+                return sym.mk_str(self.join_pieces([ps[0][lo:]] + ps[1:]))
             n = z3.Length(s)
 
             def norm(i, default):
@@ -300,7 +307,9 @@ class Models(object):
                     return default
                 if isinstance(i, SV):
                     E.need_int(i)
-                t = sym.sint(i)
+                t = z3.simplify(sym.sint(i))
+                if _nonneg(t):
+                    return z3.If(t > n, n, t)
                 t = z3.If(t < 0, n + t, t)
                 return z3.If(t < 0, z3.IntVal(0), z3.If(t > n, n, t))
             a = norm(lo, z3.IntVal(0))
@@ -520,11 +529,7 @@ class Models(object):
             c, k = (l, r) if isinstance(l, StrCount) else (r, l)
             if not isinstance(k, int):
                 raise Unsupported("str.count() compared with non-constant")
-            notc = z3.Diff(z3.AllChar(sym.RS), z3.Re(c.ch))
-            rex = z3.Star(notc)
-            for _ in range(k):
-                rex = z3.Concat(rex, z3.Re(c.ch), z3.Star(notc))
-            return E.decide(z3.InRe(c.s, rex))
+            return self.count_eq(c, k)
         if sym.liftable(l) and sym.liftable(r):
             return E.decide(sym.eq(l, r))
         if isinstance(l, (list, tuple)) and isinstance(r, (list, tuple)):
@@ -606,6 +611,8 @@ class Models(object):
                 raise PyRaise(ExcVal(TypeError, ("'in <string>' requires string",)))
             if isinstance(c, str) and isinstance(x, str):
                 return x in c
+            if isinstance(x, str) and x != "":
+                return E.decide(self.contains_lit(sym.sstr(c), x))
             return E.decide(z3.Contains(sym.sstr(c), sym.sstr(x)))
         if isinstance(c, SV):
             d = self.as_dict(c)
@@ -739,8 +746,17 @@ class Models(object):
             a = args[0]
             opts = list(a) if isinstance(a, tuple) else [a]
             fs = []
+            ps = self.pieces(t)
             for o in opts:
                 ot = E.need_str(o)
+                if isinstance(o, str) and ps:
+                    # concat-aware: decided by a literal end piece that is long enough
+                    if name == "endswith" and isinstance(ps[-1], str) and len(ps[-1]) >= len(o):
+                        fs.append(ps[-1].endswith(o))
+                        continue
+                    if name == "startswith" and isinstance(ps[0], str) and len(ps[0]) >= len(o):
+                        fs.append(ps[0].startswith(o))
+                        continue
                 fs.append(z3.PrefixOf(ot, t) if name == "startswith" else z3.SuffixOf(ot, t))
             return E.decide(sym.Or(*fs))
         if name == "lower":
@@ -797,8 +813,7 @@ class Models(object):
         r = lower_uf(t)
         for c in E.lower_hints:
             r = z3.If(t == z3.StringVal(c), z3.StringVal(c.lower()), r)
-        up = z3.Range("A", "Z")
-        no_upper = z3.Star(z3.Diff(z3.AllChar(sym.RS), up))
+        no_upper = z3.Star(sym.ranges_to_re(sym.complement_ranges([(65, 90)])))
         ax = [z3.InRe(lower_uf(t), no_upper),
               z3.Implies(z3.InRe(t, no_upper), lower_uf(t) == t),
               z3.Length(lower_uf(t)) == z3.Length(t)]
@@ -817,81 +832,235 @@ class Models(object):
                 return sym.mk_str(t)
             cls = z3.Union(*[z3.Re(c) for c in chars]) if len(chars) > 1 else z3.Re(chars)
             chars_l = chars
+        ck = ("strip", t.get_id(), chars, which)
+        if ck in E.path.refs and E.path.refs[ck][0].eq(t):
+            return sym.mk_str(E.path.refs[ck][1])
         pre = E.fresh("strip_l", sym.S)
         mid = E.fresh("strip_m", sym.S)
+        E.path.refs[ck] = (t, mid)
         suf = E.fresh("strip_r", sym.S)
         E.assume(t == z3.Concat(pre, mid, suf))
         if which in ("strip", "lstrip"):
             E.assume(z3.InRe(pre, z3.Star(cls)))
-            E.assume(z3.Not(z3.InRe(mid, z3.Concat(cls, z3.Star(z3.AllChar(sym.RS))))))
+            E.assume(z3.Or(mid == z3.StringVal(""), z3.InRe(mid, z3.Concat(sym.not_chars(chars_l), z3.Star(z3.AllChar(sym.RS))))))
         else:
             E.assume(pre == z3.StringVal(""))
         if which in ("strip", "rstrip"):
             E.assume(z3.InRe(suf, z3.Star(cls)))
-            E.assume(z3.Not(z3.InRe(mid, z3.Concat(z3.Star(z3.AllChar(sym.RS)), cls))))
+            E.assume(z3.Or(mid == z3.StringVal(""), z3.InRe(mid, z3.Concat(z3.Star(z3.AllChar(sym.RS)), sym.not_chars(chars_l)))))
         else:
             E.assume(suf == z3.StringVal(""))
         return sym.mk_str(mid)
 
     # split ---------------------------------------------------------------------------------------
-    def split_parts(self, sr, k):
-        """assume the split has exactly k separators (k+1 parts); returns list of part terms.
-        Caller must have decided feasibility via split_count_is()."""
-        return sr.parts
+    # Strings in productmd are built by concatenation and taken apart by split/rsplit/count.  Reasoning is
+    # concat-aware: a term is flattened into literal and atomic pieces; atomic pieces that the path condition
+    # makes separator-free are never cut, so most splits are computed structurally (no new variables); only an
+    # atomic piece that may contain the separator is split with Skolem parts (unique decomposition).
+    def pieces(self, t):
+        t = z3.simplify(t)
+        out = []
 
-    def split_count_is(self, sr, n):
-        """decide: does the split yield exactly n parts?  On True, materialise sr.parts."""
+        def rec(x):
+            if z3.is_string_value(x):
+                v = sym.mk_str(x)
+                if out and isinstance(out[-1], str):
+                    out[-1] += v
+                elif v != "":
+                    out.append(v)
+            elif z3.is_app(x) and x.decl().kind() == z3.Z3_OP_SEQ_CONCAT:
+                for c in x.children():
+                    rec(c)
+            else:
+                out.append(x)
+        rec(t)
+        return out
+
+    def join_pieces(self, ps):
+        ps = [p for p in ps if not (isinstance(p, str) and p == "")]
+        if not ps:
+            return z3.StringVal("")
+        ts = [z3.StringVal(p) if isinstance(p, str) else p for p in ps]
+        return z3.simplify(z3.Concat(*ts)) if len(ts) > 1 else ts[0]
+
+    def sepfree(self, t, sep):
+        """does the path condition force the atomic string term t to be free of `sep`?"""
         E = self.E
-        if sr.parts is not None:
-            return len(sr.parts) == n
-        sep = sr.sep
-        sept = z3.StringVal(sep)
-        nosep = z3.Not  # placeholder
-        allc = z3.AllChar(sym.RS)
-        if len(sep) == 1:
-            piece = z3.Star(z3.Diff(allc, z3.Re(sep)))
-        else:
-            piece = z3.Complement(z3.Concat(z3.Star(allc), z3.Re(sep), z3.Star(allc)))
-        anyre = z3.Star(allc)
-        limited = sr.maxsplit >= 0 and n - 1 >= sr.maxsplit
-        if sr.maxsplit >= 0 and n - 1 > sr.maxsplit:
+        key = ("sepfree", t.get_id(), sep, len(E.path.pc))
+        hit = E.path.refs.get(key)
+        if hit is not None and hit[0].eq(t):
+            return hit[1]
+        r = E.feasible(E.path.pc, timeout_ms=800, slice_for=sym.B(self.contains_lit(t, sep))) is False
+        E.path.refs[key] = (t, r)
+        return r
+
+    def contains_lit(self, t, lit):
+        """formula: string term t contains the literal `lit` -- as regular membership, distributed over the pieces
+        of a concatenation when the needle is a single character (solvers decide these instantly)"""
+        anyre = z3.Star(z3.AllChar(sym.RS))
+        if len(lit) == 1:
+            fs = []
+            for p in self.pieces(t):
+                if isinstance(p, str):
+                    if lit in p:
+                        return True
+                else:
+                    fs.append(z3.InRe(p, z3.Concat(anyre, z3.Re(lit), anyre)))
+            return sym.Or(*fs) if fs else False
+        return z3.InRe(t, z3.Concat(anyre, z3.Re(lit), anyre))
+
+    def count_decompose(self, t, ch):
+        """count of character ch in t = const + sum(count(x) for x in unknown atomic terms)"""
+        const = 0
+        unknown = []
+        for p in self.pieces(t):
+            if isinstance(p, str):
+                const += p.count(ch)
+            elif not self.sepfree(p, ch):
+                unknown.append(p)
+        return const, unknown
+
+    def count_eq(self, c, k):
+        """decide  c.s.count(c.ch) == k"""
+        E = self.E
+        const, unknown = self.count_decompose(c.s, c.ch)
+        notc = sym.not_chars(c.ch)
+
+        def exactly(n):
+            rex = z3.Star(notc)
+            for _ in range(n):
+                rex = z3.Concat(rex, z3.Re(c.ch), z3.Star(notc))
+            return rex
+        if not unknown:
+            return const == k
+        if k - const < 0:
             return False
-        # language of strings splitting into exactly n parts
+        if len(unknown) == 1:
+            return E.decide(z3.InRe(unknown[0], exactly(k - const)))
+        return E.decide(z3.InRe(c.s, exactly(k)))
+
+    def _generic_split(self, s, sep, maxsplit, right, n):
+        """decide whether the string term s splits into exactly n parts; on True return Skolem part terms"""
+        E = self.E
+        allc = z3.AllChar(sym.RS)
+        if len(sep) != 1:
+            raise Unsupported("multi-character separator split of a symbolic string")
+        piece = z3.Star(sym.not_chars(sep))
+        anyre = z3.Star(allc)
+        if maxsplit >= 0 and n - 1 > maxsplit:
+            return None
+        limited = maxsplit >= 0 and n - 1 >= maxsplit
         if not limited:
             rex = piece
             for _ in range(n - 1):
                 rex = z3.Concat(rex, z3.Re(sep), piece)
+        elif right:
+            rex = anyre
+            for _ in range(n - 1):
+                rex = z3.Concat(rex, z3.Re(sep), piece)
         else:
-            # n-1 == maxsplit separators are consumed; the remaining part is unrestricted
-            if sr.right:
-                rex = anyre
-                for _ in range(n - 1):
-                    rex = z3.Concat(rex, z3.Re(sep), piece)
-            else:
-                rex = piece
-                for _ in range(n - 2):
-                    rex = z3.Concat(rex, z3.Re(sep), piece)
-                rex = z3.Concat(rex, z3.Re(sep), anyre) if n > 1 else anyre
-        if n == 1 and limited and sr.maxsplit == 0:
-            ok = True
-        else:
-            ok = E.decide(z3.InRe(sr.s, rex))
-        if not ok:
-            return False
+            rex = piece if n > 1 else anyre
+            for _ in range(n - 2):
+                rex = z3.Concat(rex, z3.Re(sep), piece)
+            if n > 1:
+                rex = z3.Concat(rex, z3.Re(sep), anyre)
+        if n == 1 and limited:
+            return [s]
+        if not E.decide(z3.InRe(s, rex)):
+            return None
+        if n == 1:
+            return [s]
         parts = [E.fresh("part%d" % i, sym.S) for i in range(n)]
         joined = []
         for i, p in enumerate(parts):
             if i:
-                joined.append(sept)
+                joined.append(z3.StringVal(sep))
             joined.append(p)
-        E.assume(sr.s == (z3.Concat(*joined) if len(joined) > 1 else joined[0]))
+        E.assume(s == z3.Concat(*joined))
         for i, p in enumerate(parts):
-            free = limited and ((sr.right and i == 0) or (not sr.right and i == n - 1))
+            free = limited and ((right and i == 0) or (not right and i == n - 1))
             if not free:
                 E.assume(z3.InRe(p, piece))
-        if len(sep) > 1 and n > 1:
+        return parts
+
+    def _structural(self, sr):
+        """scan the concatenation from the splitting side.  Returns (done_parts, cur_pieces, rest_pieces, remaining):
+        done_parts: complete parts found so far (in scan order), cur_pieces: pieces of the part being built next to the
+        unresolved rest, rest_pieces: [] if fully resolved else the pieces still to be split generically."""
+        sep = sr.sep
+        ps = self.pieces(sr.s)
+        if sr.right:
+            ps = [p[::-1] if isinstance(p, str) else p for p in reversed(ps)]     # scan a mirrored sequence
+        INF = 10 ** 9
+        remaining = sr.maxsplit if sr.maxsplit >= 0 else INF
+        done = []
+        cur = []
+        i = 0
+        msep = sep[::-1] if sr.right else sep
+        while i < len(ps):
+            p = ps[i]
+            if remaining == 0:
+                cur.extend(ps[i:])
+                i = len(ps)
+                break
+            if isinstance(p, str):
+                j = 0
+                while remaining > 0:
+                    k = p.find(msep, j)
+                    if k == -1:
+                        break
+                    cur.append(p[j:k])
+                    done.append(cur)
+                    cur = []
+                    remaining -= 1
+                    j = k + len(msep)
+                cur.append(p[j:])
+            else:
+                if self.sepfree(p, sep):
+                    cur.append(p)
+                else:
+                    return done, cur, ps[i:], remaining
+            i += 1
+        return done, cur, [], remaining
+
+    def _unmirror(self, sr, pieces_):
+        if sr.right:
+            return [p[::-1] if isinstance(p, str) else p for p in reversed(pieces_)]
+        return pieces_
+
+    def split_count_is(self, sr, n):
+        """decide: does the split yield exactly n parts?  On True, materialise sr.parts (list of z3 String terms)."""
+        E = self.E
+        if sr.parts is not None:
+            return len(sr.parts) == n
+        if len(sr.sep) != 1:
             raise Unsupported("multi-character separator split of a symbolic string")
-        sr.parts = parts
+        done, cur, rest, remaining = self._structural(sr)
+        if not rest:
+            total = len(done) + 1
+            if total != n:
+                return False
+            parts = [self.join_pieces(self._unmirror(sr, d)) for d in done] + [self.join_pieces(self._unmirror(sr, cur))]
+            sr.parts = list(reversed(parts)) if sr.right else parts
+            return True
+        # unresolved rest: split it generically into n - len(done) parts; its first (scan order) part is glued to `cur`
+        ng = n - len(done)
+        if ng < 1:
+            return False
+        rest_t = self.join_pieces(self._unmirror(sr, rest))
+        ms = remaining if remaining < 10 ** 9 else -1
+        g = self._generic_split(rest_t, sr.sep, ms, sr.right, ng)
+        if g is None:
+            return False
+        # g is in string order; in scan order the first generic part is the one adjacent to `cur`
+        g_scan = list(reversed(g)) if sr.right else list(g)
+        cur_t = self._unmirror(sr, cur)
+        if sr.right:
+            first = self.join_pieces([g_scan[0]] + cur_t)
+        else:
+            first = self.join_pieces(cur_t + [g_scan[0]])
+        parts_scan = [self.join_pieces(self._unmirror(sr, d)) for d in done] + [first] + g_scan[1:]
+        sr.parts = list(reversed(parts_scan)) if sr.right else parts_scan
         return True
 
     def split_exact(self, sr, n):
@@ -900,24 +1069,16 @@ class Models(object):
         return [sym.mk_str(p) for p in sr.parts]
 
     def split_index(self, sr, k):
-        E = self.E
         k = sym.concrete(k)
         if not isinstance(k, int):
             raise Unsupported("symbolic index into split()")
-        if sr.parts is None:
-            need = k + 1 if k >= 0 else -k
-            # first/last element access without knowing the count: fork on small counts
-            for n in range(1, 6):
-                if self.split_count_is(sr, n):
-                    break
-            else:
-                raise Unsupported("split() with more than 5 parts indexed")
+        parts = self.split_list(sr)
         try:
-            return sym.mk_str(sr.parts[k])
+            return parts[k]
         except IndexError:
             raise PyRaise(ExcVal(IndexError, ()))
 
-    def split_list(self, sr, maxparts=5):
+    def split_list(self, sr, maxparts=6):
         if sr.parts is None:
             for n in range(1, maxparts + 1):
                 if self.split_count_is(sr, n):
@@ -962,7 +1123,23 @@ class Models(object):
     method_hooks = {}
 
     def sym_groupdict(self, m):
-        raise Unsupported("capture groups of a symbolic string (needs an rx-proved parse contract)")
+        """abstract capture groups of a symbolic match: one fresh value per named group, None allowed only for
+        groups under an optional construct, text within the group's own sub-language.  WHERE the groups lie in the
+        string is not stated here -- that is the rx-proved parse obligation of the contract that uses them."""
+        E = self.E
+        d = self.new_dict("groupdict")
+        names = list(m.pattern.groupindex.keys())
+        info = sym.rx_groups(m.pattern)
+        m.groups = {}
+        for n in names:
+            gre, opt = info[n]
+            v = SV(z3.Const("group.%s.%s" % (n, getattr(m, "tag", "m")), sym.Val))
+            txt = z3.And(Val.is_VStr(v.t), z3.InRe(Val.s(v.t), gre), z3.Contains(m.s, Val.s(v.t)))
+            E.assume(z3.Or(txt, Val.is_VNone(v.t)) if opt else txt)
+            m.groups[n] = v
+            d.entries.append(Entry(n, True, v))
+        E.path.notes.append(("match", m))
+        return d
 
     def re_match(self, pattern, v):
         E = self.E
@@ -1463,6 +1640,18 @@ class _OpenView(object):
     def __init__(self, d, kind):
         self.d = d
         self.kind = kind
+
+
+def _nonneg(t):
+    if z3.is_int_value(t):
+        return t.as_long() >= 0
+    if z3.is_app(t):
+        k = t.decl().kind()
+        if k == z3.Z3_OP_SEQ_LENGTH:
+            return True
+        if k == z3.Z3_OP_ADD:
+            return all(_nonneg(c) for c in t.children())
+    return False
 
 
 def _kname(k):
